@@ -187,6 +187,8 @@ View == <<size, reserved, align, res, mem>>
 \*     this prints, for every reachable pool state (distinct under View) and every operation enabled
 \*     in it, one operation sequence that ends with that operation (transition coverage of the graph)
 EmitEdge == PrintT(<<"B", ToJson(hist')>>)
-\* (b) as a constraint: every history of length MaxOps (used with -simulate)
+\* (b) simulation: exactly one printed sequence per simulated trace
+SimNext == Next \/ (Len(hist) = MaxOps /\ PrintT(<<"B", ToJson(hist)>>) /\ UNCHANGED vars)
+SimSpec == Init /\ [][SimNext]_vars
 Emit == Len(hist) < MaxOps \/ (PrintT(<<"B", ToJson(hist)>>) /\ FALSE)
 =============================================================================
